@@ -265,7 +265,14 @@ func (g *rnsGen) next() (sdk.Msg, map[string]interface{}) {
 			map[string]interface{}{"list": map[string]interface{}{"creator": creator, "rawName": nm, "lname": ln, "priceRaw": price.String(), "price": parseCoinJ(price.String())}}
 	case k < 32:
 		creator := g.actorFor(ln)
-		if sale, ok := g.c.A.RnsKeeper.GetForsale(g.c.Ctx(), ln); ok && r.Intn(2) == 0 {
+		if sales := g.c.A.RnsKeeper.GetAllForsale(g.c.Ctx()); len(sales) > 0 && r.Intn(2) == 0 {
+			nm = sales[r.Intn(len(sales))].Name // mostly: a name that is on the market …
+			if r.Intn(3) == 0 && len(nm) > 4 {
+				nm = strings.ToUpper(nm[:1]) + nm[1:] // … sometimes typed with a capital (valid: only the TLD must be lower case)
+			}
+			ln = lowerName(nm)
+		}
+		if sale, ok := g.c.A.RnsKeeper.GetForsale(g.c.Ctx(), ln); ok && r.Intn(4) > 0 {
 			creator = sale.Owner
 		}
 		return &rnstypes.MsgDelist{Creator: creator, Name: nm},
